@@ -228,7 +228,13 @@ func (i *Interpreter) getDirectorConfig(d *ast.DirectorDeclaration) (*value.Dire
 	return conf, nil
 }
 
+const maxNestedDirectors = 10
+
 func (i *Interpreter) createDirectorRequest(ctx *context.Context, dc *value.DirectorConfig) (*http.Request, error) {
+	return i.createDirectorRequestAt(ctx, dc, 0)
+}
+
+func (i *Interpreter) createDirectorRequestAt(ctx *context.Context, dc *value.DirectorConfig, depth int) (*http.Request, error) {
 	var backend *value.Backend
 	var err error
 
@@ -249,6 +255,17 @@ func (i *Interpreter) createDirectorRequest(ctx *context.Context, dc *value.Dire
 
 	if err != nil {
 		return nil, errors.WithStack(err)
+	}
+	// A member of a director can be a director itself: resolve it in turn. A director can only
+	// name members declared before it, so the nesting is finite; the bound is a safety net.
+	if backend != nil && backend.Value == nil && backend.Director != nil {
+		if depth >= maxNestedDirectors {
+			return nil, exception.Runtime(nil, "directors are nested more than %d deep", maxNestedDirectors)
+		}
+		return i.createDirectorRequestAt(ctx, backend.Director, depth+1)
+	}
+	if backend == nil || backend.Value == nil {
+		return nil, exception.Runtime(nil, "director '%s' did not determine a backend", dc.Name)
 	}
 	// Remember the member the director chose: the fetch goes to it, not to the director itself
 	i.directorBackend = backend
@@ -386,7 +403,7 @@ func (i *Interpreter) directorBackendConsistentHash(dc *value.DirectorConfig) (*
 			binary.BigEndian.PutUint32(buf, dc.Seed)
 			hash := sha256.New() // TODO: consider to user hash/fnv for getting performance guarantee
 			hash.Write(buf)
-			hash.Write([]byte(v.Backend.Value.Name.Value))
+			hash.Write([]byte(v.Backend.String())) // the member may be a director (no declaration of its own)
 			hash.Write(fmt.Append([]byte{}, i))
 			h := hash.Sum(nil)
 			num := binary.BigEndian.Uint32(h[:8]) % maxNum
@@ -440,7 +457,13 @@ func (i *Interpreter) getBackendByHash(dc *value.DirectorConfig, hash []byte) (*
 			if !v.Backend.Healthy.Load() {
 				continue
 			}
-			bh := sha256.Sum256([]byte(v.Backend.Value.String()))
+			// The member may be a director (no declaration of its own): hash its name then
+			var bh [32]byte
+			if v.Backend.Value != nil {
+				bh = sha256.Sum256([]byte(v.Backend.Value.String()))
+			} else {
+				bh = sha256.Sum256([]byte(v.Backend.String()))
+			}
 			b := binary.BigEndian.Uint64(bh[:8])
 			if b%(maxNum*10) >= num && b%(maxNum*10) < num+maxNum {
 				target = v.Backend
